@@ -2346,3 +2346,25 @@ V('c03-message-text-reassembled', 'C03', 'R3.1', 'pymap/message.py',
 
     @classmethod
     def _get_size_with_lines''')
+V('c16-marks-not-reset-on-failure', 'C16', 'R16.6', STATE,
+  '''        try:
+            response, selected = await func(cmd)
+        except BaseException:
+            if self._selected is not None:
+                self._selected.discard_marks()
+            raise
+''', '''        response, selected = await func(cmd)
+''')
+V('c01-discard-forgets-silenced', 'C01', 'R1.10', SEL,
+  '''        self._hide_expunged = False
+        self._silenced_flags.clear()
+        self._silenced_sflags.clear()
+''', '''        self._hide_expunged = False
+''')
+V('c16-marks-twin-inline-reset', 'C16', 'R16.6', STATE,
+  '''            if self._selected is not None:
+                self._selected.discard_marks()
+            raise''', '''            selected_ = self._selected
+            if selected_ is not None:
+                selected_.discard_marks()
+            raise''', expect='silent')
